@@ -703,6 +703,17 @@ def pick_index(rng, n):
     return rng.weighted([(-1, 1), (0, 4), (n - 1, 4), (n, 2), (rng.range(0, max(0, n - 1)), 6), (n + 1, 1)])
 
 
+LIST_KINDS = [("push", 6), ("remove", 4), ("read", 4), ("write", 4), ("opassign", 3), ("reverse", 2), ("join", 2),
+              ("clear", 1), ("clone", 2), ("alias", 3), ("map", 3), ("filter", 3), ("index_of", 3), ("len", 2),
+              ("eq", 2), ("concat", 2), ("bind", 2), ("push_fn", 1), ("new_from", 2), ("cap_call", 2), ("push_from", 1),
+              ("tmp_nest", 2), ("filter_len", 2), ("unary_read", 2), ("chain2", 2)]
+MAP_KINDS = [("mwrite", 6), ("mread", 4), ("mopassign", 3), ("replace", 3), ("mremove", 3), ("contains", 3), ("len", 2),
+             ("keys", 2), ("values", 2), ("pairs", 2), ("clear", 1), ("clone", 2), ("alias", 3), ("keys_len", 1),
+             ("mwrite_fn", 1), ("cap_call", 2), ("mwrite_from", 1), ("mwrite_keyfrom", 2)]
+LIST_KIND_NAMES = [k for k, _ in LIST_KINDS]
+MAP_KIND_NAMES = [k for k, _ in MAP_KINDS]
+
+
 def gen_op(rng, it):
     names = list(it.order)
     lists = [x for x in names if it.vars[x].t in LIST_T]
@@ -742,10 +753,10 @@ def gen_op(rng, it):
     o = it.vars[a]
     if o.t in LIST_T:
         n = len(o.data)
-        kind = rng.weighted([("push", 6), ("remove", 4), ("read", 4), ("write", 4), ("opassign", 3), ("reverse", 2), ("join", 2),
-                             ("clear", 1), ("clone", 2), ("alias", 3), ("map", 3), ("filter", 3), ("index_of", 3), ("len", 2),
-                             ("eq", 2), ("concat", 2), ("bind", 2), ("push_fn", 1), ("new_from", 2), ("cap_call", 2), ("push_from", 1),
-                             ("tmp_nest", 2), ("filter_len", 2), ("unary_read", 2), ("chain2", 2)])
+        kind = rng.weighted(LIST_KINDS)
+        focus = [k for k in getattr(it, "focus", []) if k in LIST_KIND_NAMES]
+        if focus and rng.chance(3, 5):
+            kind = rng.choice(focus)
         op = {"op": kind, "a": a}
         if kind == "new_from":
             return {"op": kind, "a": a, "i": rng.below(8), "t": rng.choice(["li", "msi"]), "v": rng.choice(INTS), "k": rng.choice(SKEYS)}
@@ -794,9 +805,10 @@ def gen_op(rng, it):
                 return {"op": "len", "a": a}
             op["cb"] = rng.choice(cands)
         return op
-    kind = rng.weighted([("mwrite", 6), ("mread", 4), ("mopassign", 3), ("replace", 3), ("mremove", 3), ("contains", 3), ("len", 2),
-                         ("keys", 2), ("values", 2), ("pairs", 2), ("clear", 1), ("clone", 2), ("alias", 3), ("keys_len", 1),
-                         ("mwrite_fn", 1), ("cap_call", 2), ("mwrite_from", 1), ("mwrite_keyfrom", 2)])
+    kind = rng.weighted(MAP_KINDS)
+    focus = [k for k in getattr(it, "focus", []) if k in MAP_KIND_NAMES]
+    if focus and rng.chance(3, 5) and o.t != "msl":
+        kind = rng.choice(focus)
     op = {"op": kind, "a": a}
     if o.t == "msl":
         kind = rng.weighted([("mwrite", 6), ("mread", 3), ("mget", 4), ("mremove", 2), ("contains", 2), ("len", 1), ("values", 2), ("keys", 1),
@@ -841,6 +853,9 @@ def gen_op(rng, it):
 
 def generate(rng, max_ops=12):
     it = Interp()
+    if rng.chance(1, 2):
+        # swarm: this history concentrates on a few operation kinds (plus the ones that create aliases and clones)
+        it.focus = rng.sample(LIST_KIND_NAMES, 3) + rng.sample(MAP_KIND_NAMES, 3) + ["alias", "clone"]
     ops = []
     nops = rng.range(3, max_ops)
     tries = 0
